@@ -28,7 +28,7 @@ class Contract:
     def __init__(self, qual, params, returns=T.NoneT, requires=(), ensures=(), raises=(), loops=None,
                  modifies=(), mutates=(), inline=False, props=(), self_type=None, ghost=None, verify=True,
                  assume_only=False, yields=None, decreases=None, lemmas=(), note="", cover=True,
-                 raises_any_ok=False, vararg_types=None):
+                 raises_any_ok=False, vararg_types=None, canary=False, replay_self=None):
         self.qual = qual
         self.params = dict(params)            # name -> Ty (without self)
         self.returns = returns
@@ -48,6 +48,8 @@ class Contract:
         self.note = note
         self.cover = cover
         self.vararg_types = vararg_types
+        self.canary = canary            # deliberately wrong contract: at least one obligation must be refuted
+        self.replay_self = replay_self
 
 def contract(qual, **kw):
     c = Contract(qual, **kw)
